@@ -197,7 +197,12 @@ fn render_n(entries: &[NE], ns: &Ns) -> Rendered {
         let mut offs = Vec::new();
         match e {
             NE::Txn(t) => {
-                writeln!(text, "{} txn{}", date_text(t.date), k).unwrap();
+                // header in the shape drawn by the shared generator (the default is `DATE txn<k>`)
+                write!(text, "{}", date_text(t.date)).unwrap();
+                if let Some(ed) = t.effective {
+                    write!(text, "={}", date_text(ed)).unwrap();
+                }
+                writeln!(text, "{}", t.head.text(k, None)).unwrap();
                 line += 1;
                 for p in &t.posts {
                     offs.push(text.len());
@@ -221,13 +226,14 @@ fn render_n(entries: &[NE], ns: &Ns) -> Rendered {
             NE::Commodity { name, lines: Some(lines), .. } => {
                 writeln!(text, "commodity {}", ns.com[*name]).unwrap();
                 line += 1;
-                for l in lines {
+                for (j, l) in lines.iter().enumerate() {
                     match l {
                         Sub::Alias(a) => writeln!(text, "    alias {}", ns.com[*a]).unwrap(),
                         Sub::Note => writeln!(text, "    note about {}", k).unwrap(),
                         Sub::Comment => writeln!(text, "    ; remark {}", k).unwrap(),
+                        // the sample number in one of the forms of ledger::FmtLit, by position
                         Sub::Format(dp) => {
-                            writeln!(text, "    format {} {}", num_text(1000 * 10i64.pow(*dp), *dp, true), ns.com[*name]).unwrap()
+                            writeln!(text, "    format {} {}", FmtLit::nth(k + j).text(*dp), ns.com[*name]).unwrap()
                         }
                     }
                     line += 1;
@@ -396,6 +402,7 @@ fn map_exch(x: &Exch, f: &mut dyn FnMut(usize) -> usize) -> Exch {
 /// every written name of a transaction, in source order
 fn map_txn(t: &Txn, fa: &mut dyn FnMut(usize) -> usize, fc: &mut dyn FnMut(usize) -> usize) -> Txn {
     Txn {
+        head: t.head,
         effective: t.effective,
         date: t.date,
         posts: t
@@ -420,7 +427,7 @@ fn gen_base(r: &mut Rng, ns: &Ns, b: &Bias) -> Vec<NE> {
     for e in &es {
         out.push(match e {
             Entry::Txn(t) => NE::Txn(map_txn(t, &mut |a| ns.acc_canon(a), &mut |c| ns.com_canon(c))),
-            Entry::Format(c, dp) => {
+            Entry::Format(c, dp, _) => {
                 let mut aliases = Vec::new();
                 for k in 0..2 {
                     if r.chance(1, 3) {
@@ -693,6 +700,23 @@ fn emit(sh: &mut Shards, st: &mut Stats, a: &[NE], b: &[NE], nsub: usize, kind: 
     st.count(&format!("substitutions:{}", nsub.min(6)));
     st.add("declarations", a.iter().filter(|e| matches!(e, NE::Account { .. } | NE::Commodity { .. })).count() as u64);
     st.add("transactions", a.iter().filter(|e| matches!(e, NE::Txn(_))).count() as u64);
+    for (k, e) in a.iter().enumerate() {
+        match e {
+            NE::Txn(t) => {
+                st.add("shape:header_without_payee", t.head.bare as u64);
+                st.add("shape:header_ends_after_clear_mark", t.head.ends_after_mark(None) as u64);
+                st.add("shape:header_effective_date", t.effective.is_some() as u64);
+            }
+            NE::Commodity { lines: Some(lines), .. } => {
+                for (j, l) in lines.iter().enumerate() {
+                    if matches!(l, Sub::Format(_)) {
+                        st.add(&format!("format_sample:{}", FmtLit::nth(k + j).name()), 1);
+                    }
+                }
+            }
+            _ => {}
+        }
+    }
     if obs_term(&ra.obs) != obs_term(&rb.obs) || cli_term(&ra.cli) != cli_term(&rb.cli) {
         st.count("impl:pair_differs");
     }
